@@ -28,6 +28,7 @@ fn run_case(c: &Val) -> Val {
     match fam {
         "valid" => fam_valid::run(args),
         "be" => fam_be::run(args),
+        "bgone" => fam_be::run_gone(args),
         "fe" => fam_fe::run(args),
         "dmn" => fam_dmn::run(args),
         "fsrv" => fam_proxy::run_fsrv(args),
